@@ -715,3 +715,371 @@ Section Inverse.
         rewrite dgetq_notin; [reflexivity|]. rewrite spec_inverse_keys. intros H. apply HI, Hkeys, H.
   Qed.
 End Inverse.
+
+(* ---------- forward followed by the inversion ---------- *)
+Lemma forward_struct P : valid_jdd P -> mean_defined P ->
+  forward P = Ok (map (fun i => forward_i P (nth i (mean_raw P) 0) i) (seq 0 (first_len P))).
+Proof.
+  intros HV HM. unfold forward. rewrite (mean_err_valid P HV).
+  assert (HE : existsb (fun i => Qeq_bool (nth i (mean_raw P) 0) 0 && has_pos i P) (seq 0 (first_len P)) = false).
+  { apply not_true_is_false. intros H. apply existsb_exists in H. destruct H as [i [Hi H]].
+    apply in_seq in Hi. apply andb_true_iff in H. destruct H as [H1 H2].
+    apply Qeq_bool_iff in H1. rewrite mean_raw_nth in H1 by (try assumption; lia).
+    apply (HM i); [lia|exact H2|exact H1]. }
+  rewrite HE. reflexivity.
+Qed.
+
+Lemma fold_nset_fresh {A} (l : list (nat * A)) : forall acc,
+  NoDup (map fst acc ++ map fst l) ->
+  fold_left (fun a nd => nset a (fst nd) (snd nd)) l acc = acc ++ l.
+Proof.
+  induction l as [|[n d] l IH]; intros acc H; cbn [fold_left fst snd]; [rewrite app_nil_r; reflexivity|].
+  cbn [map fst] in H.
+  rewrite nget_app_fresh by (apply NoDup_remove_2 in H; intros HI; apply H; apply in_or_app; left; exact HI).
+  rewrite IH; [rewrite <- app_assoc; reflexivity|].
+  rewrite map_app. cbn [map fst]. rewrite <- app_assoc. exact H.
+Qed.
+
+Lemma nget_combine {A} names : forall (qs : list A) i name q,
+  NoDup names -> nth_error names i = Some name -> nth_error qs i = Some q ->
+  nget (combine names qs) name = Some q.
+Proof.
+  induction names as [|n names IH]; intros qs i name q Hnd Hn Hq; [destruct i; discriminate|].
+  destruct qs as [|q0 qs]; [destruct i; discriminate|]. cbn [combine nget].
+  inversion Hnd as [|? ? Hnin Hnd']; subst. destruct i as [|i]; cbn in Hn, Hq.
+  - injection Hn as ->. injection Hq as ->. rewrite Nat.eqb_refl. reflexivity.
+  - destruct (Nat.eqb_spec name n) as [->|_]; [exfalso; apply Hnin; eapply nth_error_In; eauto|].
+    apply (IH qs i); assumption.
+Qed.
+
+Lemma map_fst_combine {A} (names : list nat) (qs : list A) :
+  length names = length qs -> map fst (combine names qs) = names.
+Proof.
+  revert qs. induction names as [|n names IH]; intros [|q qs] H; cbn in *; try discriminate; [reflexivity|].
+  f_equal. apply IH. lia.
+Qed.
+
+Lemma nth_error_seq_gen n : forall s i, (i < n)%nat -> nth_error (seq s n) i = Some (s + i)%nat.
+Proof.
+  induction n as [|n IH]; intros s i H; [lia|]. destruct i as [|i]; cbn [seq nth_error].
+  - rewrite Nat.add_0_r. reflexivity.
+  - rewrite IH by lia. f_equal. lia.
+Qed.
+
+Lemma nth_error_seq0 n i : (i < n)%nat -> nth_error (seq 0 n) i = Some i.
+Proof. intros H. rewrite nth_error_seq_gen by exact H. reflexivity. Qed.
+
+Theorem roundtrip_correct P names kstar :
+  valid_jdd P -> (0 < first_len P)%nat -> Forall (fun kp => 0 < snd kp) P ->
+  In kstar (dkeys P) /\ Forall (fun x => (0 < x)%Z) kstar ->
+  NoDup names -> length names = first_len P ->
+  exists l, roundtrip P names = Ok l /\ l <> [] /\
+    forall ck r, In (ck, r) l -> exists d, r = Ok d /\ dict_close 0 d (spec_inverse P).
+Proof.
+  intros HV HT Hpos Hstar HN HL.
+  pose proof (mean_defined_P P HV Hpos kstar Hstar) as HM.
+  unfold roundtrip. rewrite (forward_struct P HV HM).
+  set (qs := map (fun i => forward_i P (nth i (mean_raw P) 0) i) (seq 0 (first_len P))).
+  assert (Hlen : length names = length qs) by (unfold qs; rewrite map_length, seq_length; exact HL).
+  assert (Hqks : qks_of_list names qs = combine names qs).
+  { unfold qks_of_list. rewrite fold_nset_fresh; [reflexivity|]. cbn [map app]. rewrite map_fst_combine by exact Hlen. exact HN. }
+  rewrite Hqks.
+  destruct names as [|ref names'] eqn:En; [cbn in HL; lia|]. rewrite <- En in *.
+  apply (invert_correct P HV HT Hpos kstar Hstar (combine names qs) names HN HL) with (ref := ref).
+  - intros i name Hi. exists (nth i (mean_raw P) 0).
+    assert (HiT : (i < first_len P)%nat) by (rewrite <- HL; apply nth_error_Some; congruence).
+    split; [apply mean_raw_nth; assumption|].
+    apply (nget_combine names qs i name); [exact HN|exact Hi|].
+    unfold qs. apply (map_nth_error (fun i => forward_i P (nth i (mean_raw P) 0) i)).
+    apply nth_error_seq0. exact HiT.
+  - rewrite En. reflexivity.
+Qed.
+
+(* ====================================================================== row sums *)
+Lemma qsum_pick (F : key -> Q) a l :
+  NoDup l -> qsum (map (fun x => b2q (keqb x a) * F x) l) == b2q (kmem a l) * F a.
+Proof.
+  induction l as [|x t IH]; intros Hnd; [cbn; ring|].
+  cbn [map qsum kmem existsb]. fold (kmem a t).
+  inversion Hnd as [|? ? Hnin Hnd']; subst. rewrite IH by exact Hnd'.
+  rewrite (keqb_sym a x). destruct (keqb_spec x a) as [->|Hne]; cbn [b2q orb].
+  - apply kmem_false in Hnin. rewrite Hnin. cbn [b2q]. ring.
+  - ring.
+Qed.
+
+Definition row_total (M : dict) (keys : list key) (a : key) : Q :=
+  qsum (map (fun b => dgetq M (a ++ b)) keys).
+
+Lemma dmem_false_dgetq M k : dmem M k = false -> dgetq M k = 0.
+Proof. intros H. apply dgetq_notin. apply dmem_false. exact H. Qed.
+
+Lemma row_terms_msum M keys a :
+  NoDup keys ->
+  msum (fun x => keqb x a) (row_terms M keys) == b2q (kmem a keys) * row_total M keys a.
+Proof.
+  intros Hnd. unfold row_terms. rewrite msum_flat_map.
+  rewrite <- (qsum_pick (row_total M keys) a keys Hnd).
+  apply qsum_map_ext. intros l _. rewrite msum_flat_map. unfold row_total.
+  rewrite <- qsum_map_scale. apply qsum_map_ext. intros r _.
+  destruct (dmem M (l ++ r)) eqn:E.
+  - rewrite msum_cons, msum_nil. ring.
+  - rewrite msum_nil, (dmem_false_dgetq M _ E). ring.
+Qed.
+
+Lemma row_terms_keys M keys a :
+  In a (map fst (row_terms M keys)) <-> In a keys /\ exists b, In b keys /\ dmem M (a ++ b) = true.
+Proof.
+  unfold row_terms. rewrite in_map_iff. split.
+  - intros [[k v] [E H]]. cbn in E. subst k. apply in_flat_map in H. destruct H as [l [Hl H]].
+    apply in_flat_map in H. destruct H as [r [Hr H]]. destruct (dmem M (l ++ r)) eqn:Ed; [|destruct H].
+    destruct H as [H|[]]. injection H as -> _. split; [exact Hl|]. exists r. split; assumption.
+  - intros [Ha [b [Hb Hd]]]. exists (a, dgetq M (a ++ b)). split; [reflexivity|].
+    apply in_flat_map. exists a. split; [exact Ha|]. apply in_flat_map. exists b. split; [exact Hb|].
+    rewrite Hd. left. reflexivity.
+Qed.
+
+Lemma dgetq_map_fun (f : key -> Q) l k :
+  dgetq (map (fun x => (x, f x)) l) k = if kmem k l then f k else 0.
+Proof. unfold dgetq. rewrite dget_map_fun. destruct (kmem k l); reflexivity. Qed.
+
+Theorem rows_spec M keys : NoDup keys -> dict_close 0 (dacc [] (row_terms M keys)) (spec_rows M keys).
+Proof.
+  intros Hnd. split; [apply Qle_refl|]. split; [apply dacc_NoDup; constructor|].
+  assert (HK : forall a, In a (dkeys (spec_rows M keys)) <-> In a keys /\ exists b, In b keys /\ dmem M (a ++ b) = true).
+  { intros a. unfold spec_rows. rewrite dkeys_map_fun, filter_In, existsb_exists. tauto. }
+  split.
+  - intros a. rewrite dacc_keys, row_terms_keys, HK. cbn. tauto.
+  - intros a. apply Qabs_zero_le; [apply Qle_refl|]. rewrite dacc_get, row_terms_msum by exact Hnd.
+    unfold spec_rows. rewrite dgetq_map_fun. fold (row_total M keys a).
+    destruct (kmem a (filter (fun a0 => existsb (fun b => dmem M (a0 ++ b)) keys) keys)) eqn:E1; cbv iota.
+    + apply kmem_In, filter_In in E1. destruct E1 as [E1 _]. apply kmem_In in E1. rewrite E1. cbn [b2q]. ring.
+    + destruct (kmem a keys) eqn:E2; cbn [b2q]; [|ring].
+      apply kmem_In in E2. apply kmem_false in E1. rewrite filter_In in E1.
+      assert (Hz : row_total M keys a == 0).
+      { apply qsum_map_zero. intros b Hb. rewrite dmem_false_dgetq; [reflexivity|].
+        apply not_true_is_false. intros Hd. apply E1. split; [exact E2|]. apply existsb_exists. exists b. split; assumption. }
+      rewrite Hz. ring.
+Qed.
+
+(* value form: q(a) = sum over the key list of M(a ++ b) *)
+Theorem rows_value M keys a :
+  NoDup keys -> In a keys -> dgetq (dacc [] (row_terms M keys)) a == row_total M keys a.
+Proof.
+  intros Hnd Ha. rewrite dacc_get, row_terms_msum by exact Hnd.
+  apply kmem_In in Ha. rewrite Ha. cbn [b2q]. ring.
+Qed.
+
+Lemma msum_as_sum p (m : dict) : msum p m == qsum (map (fun kv => b2q (p (fst kv)) * snd kv) m).
+Proof. unfold msum. apply (qsum_filter (fun kv => p (fst kv)) snd m). Qed.
+
+(* ... and that is the full row sum of the matrix when the key list covers the partner halves *)
+Theorem row_total_rowsum T M keys a :
+  NoDup keys -> NoDup (dkeys M) -> length a = T ->
+  (forall k, In k (dkeys M) -> firstn T k = a -> In (skipn T k) keys) ->
+  row_total M keys a == rowsum T M a.
+Proof.
+  intros Hnd HndM HLa Hcov. unfold row_total, rowsum.
+  change (qsum (map snd (filter (fun kv => keqb (firstn T (fst kv)) a) M)))
+    with (msum (fun k => keqb (firstn T k) a) M).
+  rewrite msum_as_sum.
+  rewrite (qsum_map_ext (fun b => dgetq M (a ++ b))
+                        (fun b => qsum (map (fun kv => b2q (keqb (fst kv) (a ++ b)) * snd kv) M)))
+    by (intros b _; rewrite dgetq_msum by exact HndM; apply msum_as_sum).
+  rewrite (qsum_exchange (fun b kv => b2q (keqb (fst kv) (a ++ b)) * snd kv) keys M).
+  apply qsum_map_ext. intros [k v] Hkv. cbn [fst snd].
+  rewrite (qsum_map_scale_r (fun b => b2q (keqb k (a ++ b))) v keys).
+  assert (E : qsum (map (fun b => b2q (keqb k (a ++ b))) keys) == b2q (keqb (firstn T k) a)).
+  { rewrite (qsum_map_ext _ (fun b => b2q (keqb a (firstn T k)) * b2q (keqb b (skipn T k)))).
+    - rewrite qsum_map_scale, (qsum_indicator (skipn T k) keys Hnd). rewrite (keqb_sym a).
+      destruct (keqb_spec (firstn T k) a) as [E|Hne]; cbn [b2q]; [|ring].
+      assert (HI : In (skipn T k) keys).
+      { apply Hcov; [|exact E]. apply in_map_iff. exists (k, v). split; [reflexivity|exact Hkv]. }
+      apply kmem_In in HI. rewrite HI. cbn [b2q]. ring.
+    - intros b _. rewrite (keqb_sym k), (keqb_app_split T a b k HLa). apply b2q_and. }
+  rewrite E. reflexivity.
+Qed.
+
+(* ====================================================================== checkers *)
+Definition dicts_ok (eps : Q) (spec : nat -> dict) (i : nat) (obs : list dict) : Prop :=
+  Forall2 (fun j d => dict_close eps d (spec j)) (seq i (length obs)) obs.
+Definition sums_ok (eps : Q) (P : dict) (i : nat) (obs : list dict) : Prop :=
+  Forall2 (fun j d => has_pos j P = true -> Qabs (qsum (dvals d) - 1) <= eps * nq (length d))
+          (seq i (length obs)) obs.
+Definition means_ok (eps : Q) (P : dict) (i : nat) (obs : list Q) : Prop :=
+  Forall2 (fun j x => Qabs (x - mean_spec P j) <= eps) (seq i (length obs)) obs.
+
+Lemma check_dicts_spec eps spec obs : forall i, check_dicts eps spec i obs = true <-> dicts_ok eps spec i obs.
+Proof.
+  unfold dicts_ok. induction obs as [|d obs IH]; intros i; cbn [check_dicts length seq].
+  - split; [constructor|reflexivity].
+  - rewrite andb_true_iff, dict_closeb_spec, IH. split.
+    + intros [A B]. constructor; assumption.
+    + inversion 1; subst. split; assumption.
+Qed.
+
+Lemma check_sums_spec eps P obs : forall i, check_sums eps P i obs = true <-> sums_ok eps P i obs.
+Proof.
+  unfold sums_ok. induction obs as [|d obs IH]; intros i; cbn [check_sums length seq].
+  - split; [constructor|reflexivity].
+  - rewrite andb_true_iff, IH. unfold sum_one_b. rewrite orb_true_iff, negb_true_iff, qcloseb_spec. split.
+    + intros [A B]. constructor; [|exact B]. intros Hp. destruct A as [A|A]; [congruence|exact A].
+    + inversion 1 as [|? ? ? ? A B]; subst. split; [|exact B].
+      destruct (has_pos i P); [right; apply A; reflexivity|left; reflexivity].
+Qed.
+
+Lemma check_means_spec eps P obs : forall i, check_means eps P i obs = true <-> means_ok eps P i obs.
+Proof.
+  unfold means_ok. induction obs as [|d obs IH]; intros i; cbn [check_means length seq].
+  - split; [constructor|reflexivity].
+  - rewrite andb_true_iff, qcloseb_spec, IH. split.
+    + intros [A B]. constructor; assumption.
+    + inversion 1; subst. split; assumption.
+Qed.
+
+Definition C14_forward_spec (eps : Q) (P : dict) (obs : list dict) : Prop :=
+  valid_jdd P /\ mean_defined P /\ length obs = first_len P /\
+  dicts_ok eps (spec_forward_i P) 0 obs /\ sums_ok eps P 0 obs.
+
+Theorem check_forwardb_iff eps P obs : check_forwardb eps P obs = true <-> C14_forward_spec eps P obs.
+Proof.
+  unfold check_forwardb, C14_forward_spec.
+  rewrite !andb_true_iff, valid_jddb_spec, mean_ok_spec, Nat.eqb_eq, check_dicts_spec, check_sums_spec. tauto.
+Qed.
+
+Definition C14_mean_spec (eps : Q) (P : dict) (obs : list Q) : Prop :=
+  valid_jdd P /\ length obs = first_len P /\ means_ok eps P 0 obs.
+
+Theorem check_meanb_iff eps P obs : check_meanb eps P obs = true <-> C14_mean_spec eps P obs.
+Proof.
+  unfold check_meanb, C14_mean_spec. rewrite !andb_true_iff, valid_jddb_spec, Nat.eqb_eq, check_means_spec. tauto.
+Qed.
+
+Definition inv_hyp (P : dict) : Prop :=
+  valid_jdd P /\ Forall (fun kp => 0 < snd kp) P /\
+  (exists k, In k (dkeys P) /\ Forall (fun x => (0 < x)%Z) k) /\ (0 < first_len P)%nat.
+
+Lemma inv_hypb_spec P : inv_hypb P = true <-> inv_hyp P.
+Proof.
+  unfold inv_hypb, inv_hyp. rewrite !andb_true_iff, valid_jddb_spec, forallb_forall, existsb_exists, negb_true_iff, Nat.eqb_neq.
+  assert (H1 : (forall x, In x (dvals P) -> negb (Qle_bool x 0) = true) <-> Forall (fun kp => 0 < snd kp) P).
+  { rewrite Forall_forall. split.
+    - intros H kp Hkp. specialize (H (snd kp) (in_map snd _ _ Hkp)). apply negb_true_iff in H.
+      apply Qnot_le_lt. intros HL. apply Qle_bool_iff in HL. congruence.
+    - intros H x Hx. apply in_map_iff in Hx. destruct Hx as [kp [<- Hkp]]. apply negb_true_iff.
+      apply not_true_is_false. intros HL. apply Qle_bool_iff in HL. apply (Qlt_not_le _ _ (H kp Hkp)). exact HL. }
+  assert (H2 : (exists x, In x (dkeys P) /\ forallb (Z.ltb 0) x = true) <-> exists k, In k (dkeys P) /\ Forall (fun x => (0 < x)%Z) k).
+  { split; intros [k [A B]]; exists k; (split; [exact A|]).
+    - apply Forall_forall. intros x Hx. rewrite forallb_forall in B. apply Z.ltb_lt. apply B. exact Hx.
+    - apply forallb_forall. intros x Hx. rewrite Forall_forall in B. apply Z.ltb_lt. apply B. exact Hx. }
+  rewrite H1, H2. split.
+  - intros [[[A B] C] D]. split; [exact A|]. split; [exact B|]. split; [exact C|lia].
+  - intros [A [B [C D]]]. split; [split; [split; [exact A|exact B]|exact C]|lia].
+Qed.
+
+Definition C14_inverse_spec (eps : Q) (P : dict) (obs : dict) : Prop :=
+  inv_hyp P /\ dict_close eps obs (spec_inverse P).
+
+Theorem check_inverseb_iff eps P obs : check_inverseb eps P obs = true <-> C14_inverse_spec eps P obs.
+Proof. unfold check_inverseb, C14_inverse_spec. rewrite andb_true_iff, inv_hypb_spec, dict_closeb_spec. tauto. Qed.
+
+Definition C14_rows_spec (eps : Q) (M : dict) (keys : list key) (obs : dict) : Prop :=
+  NoDup keys /\ dict_close eps obs (spec_rows M keys).
+
+Theorem check_rowsb_iff eps M keys obs : check_rowsb eps M keys obs = true <-> C14_rows_spec eps M keys obs.
+Proof. unfold check_rowsb, C14_rows_spec. rewrite andb_true_iff, knodupb_NoDup, dict_closeb_spec. tauto. Qed.
+
+(* ====================================================================== the model satisfies the specifications *)
+Lemma Forall2_seq_nth {A} (R : nat -> A -> Prop) (d : A) l : forall s,
+  (forall i, (i < length l)%nat -> R (s + i)%nat (nth i l d)) -> Forall2 R (seq s (length l)) l.
+Proof.
+  induction l as [|x l IH]; intros s H; cbn [length seq]; constructor.
+  - specialize (H 0%nat). rewrite Nat.add_0_r in H. apply H. cbn. lia.
+  - apply IH. intros i Hi. replace (S s + i)%nat with (s + S i)%nat by lia. apply (H (S i)). cbn. lia.
+Qed.
+
+Lemma Forall2_vals (g : key -> Q) (l : list (key * Q)) :
+  (forall kv, In kv l -> snd kv == g (fst kv)) -> Forall2 Qeq (map snd l) (map (fun x => g (fst x)) l).
+Proof.
+  induction l as [|kv l IH]; intros H; cbn [map]; constructor.
+  - apply H. left. reflexivity.
+  - apply IH. intros kv' Hkv'. apply H. right. exact Hkv'.
+Qed.
+
+Lemma dvals_by_keys m : NoDup (dkeys m) -> qsum (dvals m) == qsum (map (dgetq m) (dkeys m)).
+Proof.
+  intros Hnd. apply qsum_pointwise. unfold dvals, dkeys. rewrite map_map.
+  apply (Forall2_vals (dgetq m) m).
+  intros [k v] Hkv. cbn [fst snd]. unfold dgetq. rewrite (In_dget m k v Hnd Hkv). reflexivity.
+Qed.
+
+Lemma dict_close_0_total d s : dict_close 0 d s -> NoDup (dkeys s) -> qsum (dvals d) == qsum (dvals s).
+Proof.
+  intros HC Hs. pose proof HC as [_ [Hd [HK _]]].
+  rewrite (dvals_by_keys d Hd), (dvals_by_keys s Hs).
+  rewrite (qsum_map_ext (dgetq d) (dgetq s)) by (intros k _; apply dict_close_0_get; exact HC).
+  apply qsum_map_set_eq; assumption.
+Qed.
+
+Theorem model_forward_satisfies P :
+  valid_jdd P -> mean_defined P -> exists qs, forward P = Ok qs /\ C14_forward_spec 0 P qs.
+Proof.
+  intros HV HM. destruct (forward_correct P HV HM) as [qs [H1 [H2 H3]]]. exists qs. split; [exact H1|].
+  split; [exact HV|]. split; [exact HM|]. split; [exact H2|]. split.
+  - apply (Forall2_seq_nth _ []). intros i Hi. change (0 + i)%nat with i. apply H3. rewrite <- H2. exact Hi.
+  - apply (Forall2_seq_nth _ []). intros i Hi Hp. change (0 + i)%nat with i in *. rewrite Qmult_0_l.
+    assert (HiT : (i < first_len P)%nat) by (rewrite <- H2; exact Hi).
+    apply Qabs_zero_le; [apply Qle_refl|].
+    rewrite (dict_close_0_total _ _ (H3 i HiT)) by (apply spec_forward_NoDup, HV).
+    apply forward_sums_to_one; [exact HV|]. apply HM; [exact HiT|exact Hp].
+Qed.
+
+Theorem model_mean_satisfies P : valid_jdd P -> exists l, mean P = Ok l /\ C14_mean_spec 0 P l.
+Proof.
+  intros HV. exists (mean_raw P). unfold mean. rewrite (mean_err_valid P HV). split; [reflexivity|].
+  split; [exact HV|]. split; [apply mean_raw_length|].
+  apply (Forall2_seq_nth _ 0). intros i Hi. change (0 + i)%nat with i. apply Qabs_zero_le; [apply Qle_refl|].
+  apply mean_raw_nth; [exact HV|]. rewrite <- mean_raw_length. exact Hi.
+Qed.
+
+Theorem model_inverse_satisfies P names :
+  inv_hyp P -> NoDup names -> length names = first_len P ->
+  exists l, roundtrip P names = Ok l /\ l <> [] /\
+    forall ck r, In (ck, r) l -> exists d, r = Ok d /\ C14_inverse_spec 0 P d.
+Proof.
+  intros HI HN HL. pose proof HI as [HV [Hpos [[ks Hks] HT]]].
+  destruct (roundtrip_correct P names ks HV HT Hpos Hks HN HL) as [l [H1 [H2 H3]]].
+  exists l. split; [exact H1|]. split; [exact H2|]. intros ck r Hin.
+  destruct (H3 ck r Hin) as [d [E HC]]. exists d. split; [exact E|]. split; assumption.
+Qed.
+
+Theorem model_rows_satisfies M keys : NoDup keys -> C14_rows_spec 0 M keys (dacc [] (row_terms M keys)).
+Proof. intros H. split; [exact H|apply rows_spec; exact H]. Qed.
+
+(* consequences of the inverse specification in the words of the property *)
+Theorem inverse_values P d k :
+  inv_hyp P -> dict_close 0 d (spec_inverse P) -> In k (dkeys P) -> knonzero k = true ->
+  dgetq d k == dgetq P k / nonzero_mass P.
+Proof.
+  intros [HV _] HC Hk Hnz. rewrite (dict_close_0_get d _ k HC).
+  apply in_map_iff in Hk. destruct Hk as [[k' p] [E Hkp]]. cbn in E. subst k'.
+  assert (H1 : dget P k = Some p) by (apply In_dget; [apply HV|exact Hkp]).
+  assert (H2 : dget (spec_inverse P) k = Some (p / nonzero_mass P)).
+  { apply In_dget.
+    - unfold spec_inverse. rewrite <- (map_id (filter _ P)) at 1.
+      assert (E : dkeys (map (fun kp => (fst kp, snd kp / nonzero_mass P)) (filter (fun kp => knonzero (fst kp)) P))
+                  = filter knonzero (dkeys P)).
+      { rewrite <- (dkeys_filter knonzero). unfold dkeys. rewrite map_map. reflexivity. }
+      rewrite map_id, E. apply NoDup_filter. apply HV.
+    - unfold spec_inverse. apply in_map_iff. exists (k, p). split; [reflexivity|]. apply filter_In. split; assumption. }
+  unfold dgetq. rewrite H1, H2. reflexivity.
+Qed.
+
+Theorem inverse_keys P d k :
+  dict_close 0 d (spec_inverse P) -> (In k (dkeys d) <-> In k (dkeys P) /\ knonzero k = true).
+Proof.
+  intros [_ [_ [HK _]]]. rewrite HK. unfold spec_inverse.
+  assert (E : dkeys (map (fun kp => (fst kp, snd kp / nonzero_mass P)) (filter (fun kp => knonzero (fst kp)) P))
+              = filter knonzero (dkeys P)).
+  { rewrite <- (dkeys_filter knonzero). unfold dkeys. rewrite map_map. reflexivity. }
+  rewrite E. apply filter_In.
+Qed.
